@@ -90,3 +90,23 @@ pub fn c13_output_is_authenticated(ct: &TimeCryptCiphertext, sig: &Signature)
     assert(m.is_some_spec() ==> tc_unframe(tc_w(alpha, ct.w@)) == Some(m.value()@)
         && pk_sub(pk_mul(pk_of(1), tc_r(alpha, m.value()@)), ct.u).dl() == 0);
 }
+
+/// a signature recombined from partial signatures over the identifier IS the whole-key signature
+/// (same scheme, same group element), so it opens exactly what the whole-key signature opens
+pub fn c13_recombined_signature_opens_like_the_whole_key_signature(ct: &TimeCryptCiphertext, sk: &SecretKey, shares: &[SignatureShare], Ghost(f): Ghost<Seq<SkShare>>, scheme: SignatureSchemes, id: &[u8])
+    requires
+        sk.0.val() != 0, scheme != SignatureSchemes::MessageAugmentation,
+        f.len() == shares@.len(),
+        forall|i: int| 0 <= i < f.len() ==> sshare_scheme(#[trigger] shares@[i]) == scheme && share_scalar(f[i].val()) is Some && sshare_raw(shares@[i]).id() == f[i].id()
+            && sshare_raw(shares@[i]).val() == sig_enc(sig_mul(hp(id@, scheme_dst(scheme)), share_scalar(f[i].val())->Some_0)),   // SecretKeyShare::sign
+        combined(f) == Some(sk.0),
+{
+    proof {
+        assert(sig_shares_of(f, sshares_raw(shares@), hp(id@, scheme_dst(scheme))));
+        lemma_combine_linear_sig(f, sshares_raw(shares@), hp(id@, scheme_dst(scheme)));
+        assert(sshares_one_scheme(shares@));
+    }
+    let s = Signature::from_shares(shares);
+    let whole = sk.sign(scheme, id);
+    assert(s is Ok && whole is Ok && s->Ok_0 == whole->Ok_0);
+}
